@@ -85,7 +85,7 @@ func Solve(query string, timeoutS int, wantAll bool) SolverResult {
 
 	type one struct {
 		name, status, out string
-		ms              int64
+		ms                int64
 	}
 	ch := make(chan one, len(solvers))
 	for i, sv := range solvers {
